@@ -45,7 +45,7 @@ CONSTANTS Local,      \* local cluster id
           TightExists,\* TRUE: only requested objects may exist (Gen: drops irrelevant variation)
           MaxHist     \* bound on the recorded history (Gen only)
 
-VARIABLES cfg, ncalls, fault, weird, anycall, done,       \* contract ghost state
+VARIABLES cfg, ncalls, fault, weird, anycall, returned, done,       \* contract ghost state
           pc,        \* "start" | "passlocal" | "passwait" | "collect" | "returned"
           req,       \* well-formed UUIDs in the intersection of the filters
           todo,      \* cluster -> set (todoByRemote[c]); {} if not involved
@@ -59,7 +59,7 @@ VARIABLES cfg, ncalls, fault, weird, anycall, done,       \* contract ghost stat
           hist
 
 C == INSTANCE FedListContract
-cvars == <<cfg, ncalls, fault, weird, anycall, done>>
+cvars == <<cfg, ncalls, fault, weird, anycall, returned, done>>
 ivars == <<pc, req, todo, batch, gpc, page, errs, nrecv, firstErr, merged, nfaults>>
 vars  == <<cvars, ivars, hist>>
 \* the raw filters matter only to Precheck; afterwards `req` and cfg.nraw carry all they decide
@@ -68,7 +68,7 @@ vars  == <<cvars, ivars, hist>>
 CountIn(sq, x) == Cardinality({i \in DOMAIN sq : sq[i] = x})
 BagOfSeq(sq) == [x \in {sq[i] : i \in DOMAIN sq} |-> CountIn(sq, x)]
 view  == <<IF pc = "start" THEN cfg ELSE [cfg EXCEPT !.filters = <<>>],
-           ncalls, fault, weird, anycall, done,
+           ncalls, fault, weird, anycall, returned, done,
            pc, req, todo, batch, gpc, page, BagOfSeq(errs), nrecv, firstErr, BagOfSeq(merged), nfaults>>
 
 Cl == 0 .. 4
